@@ -14,6 +14,7 @@ CONSTANTS Depth, Rats, Marks
 
 MCRats == {<<-1, 1>>, <<0, 1>>, <<1, 2>>, <<1, 1>>}
 MCRats3 == {<<0, 1>>, <<1, 2>>, <<1, 1>>}
+MCRats2 == {<<0, 1>>, <<1, 2>>}
 
 Nodes == {<<r, m>> : r \in Rats, m \in Marks}
 RECURSIVE IdsOfLen(_)
